@@ -171,6 +171,9 @@ class World:
                     if l < L:
                         must = l < self.levelmin
                         want = u01(p["wseed"], "ref", l, *cidx) < p["refine_p"] and ncells < p["maxcells"]
+                        chain = p.get("chain")
+                        if chain and all(cidx[d] == int(chain[d] * 2 ** l) for d in range(self.ndim)):
+                            want = True  # a zoom: the cell containing the target point is refined down to levelmax
                         if (l,) + cidx in prune:
                             want = False
                         if must or want:
